@@ -498,6 +498,7 @@ func (o *oracleC09) AfterStep(w *World, st *Step, msgs []sdk.Msg, res *abci.Resp
 		// step over the whole transaction's balance changes; anything else is only held to the invariant
 		same := res.Code == 0
 		for _, m := range msgs[1:] {
+			// (copies that spell the creator differently — addr_respelling — count as different messages)
 			if mustJSON(m) != mustJSON(msgs[0]) || sdk.MsgTypeURL(m) != sdk.MsgTypeURL(msgs[0]) {
 				same = false
 			}
@@ -505,6 +506,35 @@ func (o *oracleC09) AfterStep(w *World, st *Step, msgs []sdk.Msg, res *abci.Resp
 		if !same {
 			if res.Code != 0 && (!o.pre.bal.Equal(post.bal) || len(o.pre.bids) != len(post.bids)) {
 				w.Violate("C09:failed-but-moved:"+kind, "failed multi-message %s moved balances or bids", kind)
+			}
+			if res.Code == 0 {
+				// a successful transaction of different messages: the balance changes cannot be attributed to
+				// one message, so it is held to the conservation invariant above only, and the per-bid escrow
+				// model of every bid it names is re-read from the bid records (sum of bids == module balance
+				// has just been checked)
+				for _, mm := range msgs {
+					var bidder string
+					switch m := mm.(type) {
+					case *rnstypes.MsgBid:
+						bidder = m.Creator
+					case *rnstypes.MsgCancelBid:
+						bidder = m.Creator
+					case *rnstypes.MsgAcceptBid:
+						bidder = m.From
+					default:
+						continue
+					}
+					t, _ := rnsMsgName(mm)
+					key := canonAddr(bidder) + t
+					if b, open := post.bids[key]; open {
+						if c, err := sdk.ParseCoinsNormalized(b.Price); err == nil {
+							o.escrow[key] = c
+						}
+					} else {
+						delete(o.escrow, key)
+					}
+				}
+				w.Probe("multi_msg_mixed_ok")
 			}
 			return
 		}
